@@ -6,16 +6,16 @@ open GmQuic.Gen
 
 def Sorted (l : List Pkt) : Prop := l.Pairwise (fun a b => a.pn < b.pn)
 
-theorem lossWalk_lost_pos (T ld L la : Nat) (l : List Pkt) : ∀ (k : Nat) (lt : Option Nat),
-    ∀ x ∈ (lossWalk T ld L la l k lt).2.1, k ≤ x.1 ∧ ∃ p, l[x.1 - k]? = some p ∧ p.st = PSt.I ∧ x.2.pn = p.pn ∧
-      (p.ts < T ∨ x.1 + packetThreshold ≤ L) ∧ p.pn ≤ la := by
+theorem lossWalk_lost_pos (T ld L : Nat) (l : List Pkt) : ∀ (k : Nat) (lt : Option Nat),
+    ∀ x ∈ (lossWalk T ld L l k lt).2.1, k ≤ x.1 ∧ ∃ p, l[x.1 - k]? = some p ∧ p.st = PSt.I ∧ x.2.pn = p.pn ∧
+      (p.ts < T ∨ x.1 + packetThreshold ≤ L) := by
   induction l with
   | nil => intro k lt x hx; simp [lossWalk] at hx
   | cons p ps ih =>
     intro k lt x hx
-    have tail : ∀ lt', x ∈ (lossWalk T ld L la ps (k + 1) lt').2.1 →
+    have tail : ∀ lt', x ∈ (lossWalk T ld L ps (k + 1) lt').2.1 →
         k ≤ x.1 ∧ ∃ q, (p :: ps)[x.1 - k]? = some q ∧ q.st = PSt.I ∧ x.2.pn = q.pn ∧
-          (q.ts < T ∨ x.1 + packetThreshold ≤ L) ∧ q.pn ≤ la := by
+          (q.ts < T ∨ x.1 + packetThreshold ≤ L) := by
       intro lt' hx'
       obtain ⟨hk, q, hq, r⟩ := ih (k + 1) lt' x hx'
       refine ⟨by omega, q, ?_, r⟩
@@ -24,15 +24,14 @@ theorem lossWalk_lost_pos (T ld L la : Nat) (l : List Pkt) : ∀ (k : Nat) (lt :
     unfold lossWalk at hx
     split at hx
     · rename_i hI
-      simp only [Bool.and_eq_true, beq_iff_eq, decide_eq_true_eq] at hI
       split at hx
       · rename_i hc
-        generalize hw : (lossWalk T ld L la ps (k + 1) lt) = w at *
+        generalize hw : (lossWalk T ld L ps (k + 1) lt) = w at *
         obtain ⟨ps', lost, lt'⟩ := w
         simp only [List.mem_cons] at hx
         rcases hx with hx | hx
         · subst hx
-          refine ⟨Nat.le_refl _, p, by simp, hI.1, rfl, ?_, hI.2⟩
+          refine ⟨Nat.le_refl _, p, by simp, by simpa using hI, rfl, ?_⟩
           simp only [Bool.or_eq_true, decide_eq_true_eq] at hc
           rcases hc with hc | hc
           · exact Or.inl hc
@@ -40,7 +39,7 @@ theorem lossWalk_lost_pos (T ld L la : Nat) (l : List Pkt) : ∀ (k : Nat) (lt :
         · exact tail lt (by rw [hw]; exact hx)
       · simp only at hx
         exact tail _ hx
-    · generalize hw : (lossWalk T ld L la ps (k + 1) lt) = w at *
+    · generalize hw : (lossWalk T ld L ps (k + 1) lt) = w at *
       obtain ⟨ps', lost, lt'⟩ := w
       exact tail lt (by rw [hw]; exact hx)
 
@@ -125,39 +124,37 @@ theorem bsearch_le (l : List Pkt) (hs : Sorted l) (x n : Nat) (hn : n + 1 ≤ bs
     have := sorted_countP l hs x _ _ hget (by omega)
     omega
 
-/-- loss in terms of packet numbers, on a sorted sent list: only `Inflight` packets at or below the largest
-acknowledged number, older than the time threshold or at least three numbers below it -/
+/-- packet-threshold loss in terms of packet numbers, on a sorted sent list -/
 theorem detectLost_pn {s s' : St} {e ld : Nat} {lost : List Nat} (h : detectLost s e ld = .ok (s', lost))
-    (hs : Sorted (getSp s e).sent) : ∀ pn ∈ lost, ∃ la, (getSp s e).la = some la ∧ pn ≤ la ∧
-      ∃ p ∈ (getSp s e).sent, p.pn = pn ∧ p.st = PSt.I ∧
-        (p.ts + ld + (getSp s e).mad < s.now ∨ pn + 3 ≤ la) := by
+    (hs : Sorted (getSp s e).sent) : ∀ pn ∈ lost, ∃ p ∈ (getSp s e).sent, p.pn = pn ∧ p.st = PSt.I ∧
+      (p.ts + ld + (getSp s e).mad < s.now ∨ ∃ la, (getSp s e).la = some la ∧ pn + 3 ≤ la) := by
   intro pn hpn
   unfold detectLost at h
+  simp only at h
+  have key : ∀ x ∈ (lossWalk (s.now - ld - (getSp s e).mad) ld (bsearch (getSp s e).sent ((getSp s e).la.getD 0))
+      (getSp s e).sent 0 none).2.1, ∃ p ∈ (getSp s e).sent, p.pn = x.2.pn ∧ p.st = PSt.I ∧
+      (p.ts + ld + (getSp s e).mad < s.now ∨ ∃ la, (getSp s e).la = some la ∧ x.2.pn + 3 ≤ la) := by
+    intro x hx
+    obtain ⟨_, p, hp, hI, hpn', hthr⟩ := lossWalk_lost_pos _ _ _ _ _ _ x hx
+    simp only [Nat.sub_zero] at hp
+    refine ⟨p, List.mem_of_getElem? hp, hpn'.symm, hI, ?_⟩
+    rcases hthr with ht | ht
+    · left; omega
+    · right
+      simp only [packetThreshold] at ht
+      obtain ⟨b, hb, hble⟩ := bsearch_le _ hs ((getSp s e).la.getD 0) (x.1 + 2) (by omega)
+      have hgap := sorted_gap _ hs x.1 _ p b (by omega) hp hb
+      cases hla : (getSp s e).la with
+      | none => rw [hla] at hble hgap ht; simp only [Option.getD_none] at hble; omega
+      | some la =>
+        rw [hla] at hble hgap ht
+        simp only [Option.getD_some] at hble
+        exact ⟨la, rfl, by omega⟩
   split at h
   · cases h; simp at hpn
-  · rename_i la hla
-    refine ⟨la, hla, ?_⟩
-    unfold detectLostLa at h
-    simp only at h
-    have key : ∀ x ∈ (lossWalk (s.now - ld - (getSp s e).mad) ld (bsearch (getSp s e).sent la) la
-        (getSp s e).sent 0 none).2.1, x.2.pn ≤ la ∧ ∃ p ∈ (getSp s e).sent, p.pn = x.2.pn ∧ p.st = PSt.I ∧
-        (p.ts + ld + (getSp s e).mad < s.now ∨ x.2.pn + 3 ≤ la) := by
-      intro x hx
-      obtain ⟨_, p, hp, hI, hpn', hthr, hle⟩ := lossWalk_lost_pos _ _ _ _ _ _ _ x hx
-      simp only [Nat.sub_zero] at hp
-      refine ⟨by omega, p, List.mem_of_getElem? hp, hpn'.symm, hI, ?_⟩
-      rcases hthr with ht | ht
-      · left; omega
-      · right
-        simp only [packetThreshold] at ht
-        obtain ⟨b, hb, hble⟩ := bsearch_le _ hs la (x.1 + 2) (by omega)
-        have hgap := sorted_gap _ hs x.1 _ p b (by omega) hp hb
-        omega
-    split at h
-    · cases h; simp at hpn
-    · split at h
-      · cases h
-      · cases h
-        simp only [List.mem_map] at hpn
-        obtain ⟨x, hx, rfl⟩ := hpn
-        exact key x hx
+  · split at h
+    · cases h
+    · cases h
+      simp only [List.mem_map] at hpn
+      obtain ⟨x, hx, rfl⟩ := hpn
+      exact key x hx
